@@ -335,6 +335,41 @@ pub fn run(ctx: &Ctx) -> i32 {
         }
     }
     acc = acc.merge(env);
+    // One compiled value rendered by several threads at once, one device each (what a front end
+    // scanning every MDT does).  The schedules are whatever the machine produces: this part is a
+    // stress run, NOT an exhaustive exploration (the library has no synchronisation operation a
+    // controlled scheduler could intercept); a wrong rendering is a counterexample all the same.
+    let mut conc = Acc::new();
+    let rounds = ctx.tier.pick(3000, 30000);
+    let cdevs: Vec<String> = (0..8).map(|k| format!("/dev/mapper/mdt{k}")).chain(["a\"b".to_string(), "c\\d".to_string()]).collect();
+    let mut shareable = None;
+    for (ei, (e, threads)) in es.iter().enumerate().filter(|(i, _)| i % 6 == 0) {
+        let Some(real) = conv::expr_to_real(e) else { continue };
+        match subject::concurrent_render(&real, &subject::options(false, *threads), &cdevs, rounds) {
+            Ok(None) => shareable = Some(false),
+            Ok(Some(bad)) => {
+                shareable = Some(true);
+                conc.states += (cdevs.len() * rounds) as u64;
+                conc.transitions += (cdevs.len() * rounds) as u64;
+                conc.count("concurrent_renderings_sampled", (cdevs.len() * rounds) as u64);
+                if let Some((k, r, got)) = bad.first() {
+                    let named = got.lines().skip_while(|l| !l.contains("lipe-scan")).nth(1).unwrap_or("").trim().to_string();
+                    conc.violate(Violation::new(
+                        "C20:rendering-wrong-when-threads-share-the-compiled-value",
+                        format!("{}: {} threads render one compiled value, each for its own device; thread {k} (device {:?}) got a different program in round {r} (device line: {named}); {} of {} threads saw a wrong rendering", e.show(), cdevs.len(), cdevs[*k], bad.len(), cdevs.len()),
+                        json!({"kind": "c20-concurrent", "expr": ei}),
+                    ));
+                }
+            }
+            Err(_) => {}
+        }
+    }
+    acc = acc.merge(conc);
+    let shareable_note = match shareable {
+        Some(true) => "the compiled value is Sync: rendered concurrently (sampled schedules)",
+        Some(false) => "the compiled value is not Sync: it cannot be shared between threads, nothing to run",
+        None => "not run",
+    };
     acc.sample(json!({"expression": es[3].0.show(), "ops": ["scheme(\"a\\\"b\")", "io_map()", "scheme(\"/\")"]}));
     finish(
         ctx,
@@ -345,7 +380,11 @@ pub fn run(ctx: &Ctx) -> i32 {
             rule: "state = (compiled expression, history of render operations); explicit-state exploration of every operation sequence (the compiled value is rebuilt and the history replayed, as it cannot be copied); each result is compared with the rendering of a fresh compile for the same path; renderings for different paths are read back and must differ in exactly one leaf, the device string literal, decoding to the path; distinct = (expression, device) pairs rendered".into(),
             bound: format!("{} expressions (five of them carrying placeholder-like user text) x every sequence of length 1..{maxlen} over {} operations (scheme(d) for {} paths, io_map())", es.len(), nops, devs.len()),
             assumptions: vec!["the operation histories use expressions without time tests; two expressions with time tests are rendered twice 1.1 s apart (the embedded second belongs to the compile call, C15)".into(), "every (expression, path) rendering is repeated with a logger listening at Trace level".into()],
-            extra: serde_json::Map::new(),
+            extra: {
+                let mut m = serde_json::Map::new();
+                m.insert("concurrent_rendering".into(), json!({"method": "stress run with 10 threads sharing one compiled value — sampled schedules, outside the exhaustive bound", "rounds_per_thread": rounds, "status": shareable_note}));
+                m
+            },
         },
     )
 }
@@ -359,6 +398,17 @@ pub fn replay(w: &Value) -> Vec<Violation> {
         return vec![];
     }
     let (e, t) = &es[ei];
+    if w["kind"] == "c20-concurrent" {
+        let cdevs: Vec<String> = (0..8).map(|k| format!("/dev/mapper/mdt{k}")).collect();
+        if let Some(real) = conv::expr_to_real(e) {
+            if let Ok(Some(bad)) = subject::concurrent_render(&real, &subject::options(false, *t), &cdevs, 100_000) {
+                if let Some((k, r, _)) = bad.first() {
+                    return vec![Violation::new("C20:rendering-wrong-when-threads-share-the-compiled-value", format!("{}: thread {k} got a wrong rendering in round {r}", e.show()), w.clone())];
+                }
+            }
+        }
+        return vec![];
+    }
     if w["kind"] == "c20-time" || w["kind"] == "c20-log" {
         // environment-dependent witnesses: re-run the whole environment pass
         return vec![];
